@@ -30,26 +30,26 @@ type ReplayFile struct {
 
 // WorkerOut is what an explore worker prints as its last line.
 type WorkerOut struct {
-	Property      string             `json:"property"`
-	Worker        int                `json:"worker"`
-	Runs          int                `json:"runs"`
-	Steps         int64              `json:"steps"`
-	FakeNs        int64              `json:"fake_ns"`
-	WallS         float64            `json:"wall_s"`
-	Stats         map[string]int     `json:"stats"`
-	Inconclusive  int                `json:"inconclusive"`
-	Traces        []string           `json:"traces"`            // distinct trace hashes (hex)
-	Nontrivial    []string           `json:"nontrivial_traces"` // distinct trace hashes of non-trivial runs
-	States        []string           `json:"states"`            // distinct abstract-state hashes
-	Violations    []ReplayFile       `json:"violations"`
-	Samples       []map[string]any   `json:"samples"`
-	Infra         string             `json:"infra,omitempty"`
-	FirstSeed     uint64             `json:"first_seed"`
-	ClassCounts   map[string]int     `json:"class_counts"`
-	RunsWithFault int                `json:"runs_with_fault"`
-	Real          []string           `json:"real"`
-	Stub          []string           `json:"stub"`
-	Notes         []string           `json:"notes"`
+	Property      string           `json:"property"`
+	Worker        int              `json:"worker"`
+	Runs          int              `json:"runs"`
+	Steps         int64            `json:"steps"`
+	FakeNs        int64            `json:"fake_ns"`
+	WallS         float64          `json:"wall_s"`
+	Stats         map[string]int   `json:"stats"`
+	Inconclusive  int              `json:"inconclusive"`
+	Traces        []string         `json:"traces"`            // distinct trace hashes (hex)
+	Nontrivial    []string         `json:"nontrivial_traces"` // distinct trace hashes of non-trivial runs
+	States        []string         `json:"states"`            // distinct abstract-state hashes
+	Violations    []ReplayFile     `json:"violations"`
+	Samples       []map[string]any `json:"samples"`
+	Infra         string           `json:"infra,omitempty"`
+	FirstSeed     uint64           `json:"first_seed"`
+	ClassCounts   map[string]int   `json:"class_counts"`
+	RunsWithFault int              `json:"runs_with_fault"`
+	Real          []string         `json:"real"`
+	Stub          []string         `json:"stub"`
+	Notes         []string         `json:"notes"`
 }
 
 func envInt(k string, def int) int {
